@@ -139,3 +139,11 @@ func (c *VerifC17Control) VerifC17Stall(d time.Duration) error {
 		c.SC.queuedResults <- nil
 	})
 }
+
+// VerifC17AbacoEnds makes the running Abaco source end BY ITSELF, the way it does when its packet
+// reader times out: the reader returns and closes buffersChan, block assembly closes nextBlock, the
+// core loop returns and its deferred RunDoneDeactivate marks the source Inactive - nobody calls Stop and
+// nobody waits.  (The reader's own timeout is a 5 s constant; closing abortSelf is the same exit path.)
+func (c *VerifC17Control) VerifC17AbacoEnds() {
+	closeIfOpen(c.SC.abaco.abortSelf)
+}
